@@ -300,7 +300,10 @@ def gen_net(rng, flav, kind, size, **kw):
                 continue
         if net.exact and not U.fits(net, norm):
             continue
-        if U.Ref(net, norm).degenerate():
+        ref = U.Ref(net, norm)
+        if ref.degenerate():
+            continue
+        if kind in ("signed", "cplx") and not ref.truncations_ok():
             continue
         return net
     raise RuntimeError("no admissible network found")
@@ -345,7 +348,7 @@ def object_traces(seed, n, tid0, sizes):
         if gk == "lazy":
             kw["shape"] = r.choice(["random", "chain", "star"])
         net = gen_net(rng, flav, kind, size, **kw)
-        opts = rand_opts(r, flav)
+        opts = rand_opts(r, flav, damped_ok=kind not in ("signed", "cplx"))
         if flav == "HV1BP" and kind == "signed" and opts["init"] == "dense":
             opts["init"] = "default"     # initialize_hyper_messages divides by message entries (zero for integers)
         order = list(range(len(net.tensors)))
@@ -388,7 +391,7 @@ def entry_records(seed, n, tid0, sizes):
             call["local_convergence"] = r.random() < 0.5
         if flav in ("L1BP", "L2BP"):
             call["site_tags"] = U.site_tags(net)
-        damped = r.random() < 0.15
+        damped = r.random() < 0.15 and kind not in ("signed", "cplx")
         if damped:
             call["damping"] = r.choice([0.3, 0.6])
             call["tol"] = 1e-10
@@ -398,8 +401,7 @@ def entry_records(seed, n, tid0, sizes):
         strip = r.random() < 0.3
         if strip:
             call["strip_exponent"] = True
-        if flav in ("D1BP", "D2BP", "HD1BP", "HV1BP", "L1BP") and r.random() < 0.15 and not damped:
-            call["diis"] = True
+        r.random()       # (diis is not exercised: it is not among the options the statement quantifies over)
         rec["call"] = {k2: (v if not isinstance(v, list) else len(v)) for k2, v in call.items()}
         info = {}
         try:
@@ -436,7 +438,8 @@ def gauge_records(seed, n, tid0, sizes):
         lazy = "l2bp" in fn.lower()
         flav = "L2BP" if lazy else "D2BP"
         kind = r.choice(KINDS[flav])
-        size = r.choice(sizes["float"] if is_float(kind) else sizes["n2"])
+        # the dense tensor over the physical labels is compared: at most 10 sites
+        size = r.choice([s2 for s2 in sizes["float"] if s2 <= 10] if is_float(kind) else sizes["n2"])
         net = gen_net(rng, flav, kind, size)
         rec = base_record("gauge", tid0 + k, flav, net)
         rec["fn"] = fn
